@@ -110,6 +110,23 @@ def cds_spec(draw, max_k=5, frameshift_prob=4, ambiguous_prob=6, max_len=10, pad
     if draw(st.integers(0, ambiguous_prob - 1)) == 0:
         alphabet = "ACGTNRY"
     g = "".join(draw(st.lists(st.sampled_from(alphabet), min_size=n, max_size=n)))
+    if draw(st.integers(0, 2)) == 0:
+        # codon-aware genome: an initiator of some translation table as first codon, a stop as last / in the middle, so that the
+        # start-codon rule per table, truncation and the stop predicates are exercised often (random ACGT gives each ~1/20)
+        codons, _ = rm.frame_walk(blocks, strand, frames)
+        gl = list(g)
+
+        def plant(cod, triplet):
+            for p_, ch in zip(cod, triplet):
+                if 0 <= p_ < len(gl):
+                    gl[p_] = ch if strand == "+" else rm.comp_char(ch)
+        if codons:
+            plant(codons[0], draw(st.sampled_from(["TTG", "CTG", "GTG", "ATT", "ATC", "ATA", "ATG", "TTG"])))
+        if len(codons) > 2 and draw(st.booleans()):
+            plant(codons[1 + draw(st.integers(0, len(codons) - 3))], draw(st.sampled_from(["TAA", "TAG", "TGA"])))
+        if len(codons) > 1 and draw(st.booleans()):
+            plant(codons[-1], draw(st.sampled_from(["TAA", "TAG", "TGA"])))
+        g = "".join(gl)
     return {"blocks": blocks, "strand": strand, "offset": offset, "frames": frames, "frameshift": shifted, "genome": g}
 
 
